@@ -6,7 +6,7 @@ Executable model of sourmash's gather (min-set-cover) machinery:
                                   the integer / ratio columns of `GatherResult`
 * `src/sourmash/index/__init__.py` : `Index.find` (scaled branch) / `prefetch` / `best_containment` /
                                   `peek` / `consume` / `counter_gather` for an in-memory `LinearIndex`,
-                                  `CounterGather.__init__/add/downsample/peek/consume/union_found`
+                                  `CounterGather.__init__/add/downsample/peek (with its lazy counter refresh)/consume/union_found`
 * `src/sourmash/sketchcomparison.py` : what `FracMinHashComparison` contributes to the columns
 * `src/sourmash/minhash.py`     : `flatten_and_downsample_scaled`, `flatten_and_intersect_scaled`,
                                   `contained_by`, `FrozenMinHash.downsample`
@@ -289,19 +289,54 @@ def Counter.add (c : Counter α) (ss : Sig α) : Except GErr (Counter α) :=
                    scaled := max c.scaled (K.scaled ss.mh) }
     else .error .value
 
-/-- `CounterGather.peek(cur_query_mh, threshold_bp=)`: the counter (its `scaled` may have been
-    raised) and `[]` or `(score, match, intersect_mh)` -/
+/-- `counter[md5] = v` for a key that is present (dictionary order is kept) -/
+def setCount {α : Type} (md5 : Nat) (v : Int) : List (CEntry α) → List (CEntry α)
+  | [] => []
+  | x :: xs => if x.md5 = md5 then { x with count := v } :: xs else x :: setCount md5 v xs
+
+/-- `del counter[md5]` -/
+def delEntry {α : Type} (md5 : Nat) : List (CEntry α) → List (CEntry α)
+  | [] => []
+  | x :: xs => if x.md5 = md5 then xs else x :: delEntry md5 xs
+
+/-- the lazy-refresh loop of `peek`: take the entry with the largest counter, recompute its overlap with the
+    current query at the current resolution, accept it only if the counter was exact; otherwise refresh (or
+    drop) the counter and look again.  Every entry is refreshed at most once, so `len(entries) + 1` rounds
+    suffice; the fuel running out is unreachable and reported as `RuntimeError`.
+    Result: the counters, and `none` (= `return []`) or the accepted entry with `intersect_mh`. -/
+def peekLoop (cur : α) (scaled : Nat) (nThr : F) :
+    Nat → List (CEntry α) → Except GErr (List (CEntry α) × Option (CEntry α × α))
+  | 0, _ => .error .runtime
+  | fuel + 1, es =>
+    match mostCommon es with
+    | none => .ok (es, none)
+    | some best =>
+      if belowThreshold best.count nThr then .ok (es, none)
+      else
+        match K.dsF best.sig.mh scaled with
+        | .error e => .error e
+        | .ok m1 =>
+          match K.flat m1 with
+          | .error e => .error e
+          | .ok m2 =>
+            match K.and cur m2 with
+            | .error e => .error e
+            | .ok inter =>
+              if ((len K inter : Nat) : Int) = best.count then .ok (es, some (best, inter))
+              else if len K inter ≠ 0 then peekLoop cur scaled nThr fuel (setCount best.md5 (len K inter) es)
+              else peekLoop cur scaled nThr fuel (delEntry best.md5 es)
+
+/-- `CounterGather.peek(cur_query_mh, threshold_bp=)`: the counter (its `scaled` may have been raised, stale
+    counters may have been refreshed or dropped) and `[]` or `(score, match, intersect_mh)` -/
 def Counter.peek {σ : Type} (ops : ScoreOps σ) (c : Counter α) (cur : α) (thrBp : Nat) :
     Except GErr (Counter α × Option (σ × Sig α × α)) :=
-  match mostCommon c.entries with
-  | none => .ok (c, none)
-  | some best =>
+  if c.entries.isEmpty then .ok (c, none)
+  else
     let scaled := max c.scaled (K.scaled cur)
-    let c' := { c with scaled := scaled }
     match K.dsF cur scaled with
     | .error e => .error e
     | .ok cur =>
-      if len K cur = 0 then .ok (c', none)
+      if len K cur = 0 then .ok ({ c with scaled := scaled }, none)
       else
         match containedBy K ops cur c.origQuery with
         | .error e => .error e
@@ -309,26 +344,19 @@ def Counter.peek {σ : Type} (ops : ScoreOps σ) (c : Counter α) (cur : α) (th
           if ops.ltOne sub then .error .value   -- "current query not a subset of original query"
           else
             match calcThreshold thrBp scaled (len K cur) with
-            | .error .value => .ok (c', none)
+            | .error .value => .ok ({ c with scaled := scaled }, none)
             | .error e => .error e
             | .ok (thr, nThr) =>
-              if belowThreshold best.count nThr then .ok (c', none)
-              else
+              match peekLoop K cur scaled nThr (c.entries.length + 1) c.entries with
+              | .error e => .error e
+              | .ok (es, none) => .ok ({ c with scaled := scaled, entries := es }, none)
+              | .ok (es, some (best, inter)) =>
                 match containedBy K ops cur best.sig.mh with
                 | .error e => .error e
                 | .ok cont =>
                   if ops.isZero cont then .error .assertion
                   else if !ops.ge cont (ops.ofF thr) then .error .assertion
-                  else
-                    match K.dsF best.sig.mh scaled with
-                    | .error e => .error e
-                    | .ok m1 =>
-                      match K.flat m1 with
-                      | .error e => .error e
-                      | .ok m2 =>
-                        match K.and cur m2 with
-                        | .error e => .error e
-                        | .ok inter => .ok (c', some (cont, best.sig, inter))
+                  else .ok ({ c with scaled := scaled, entries := es }, some (cont, best.sig, inter))
 
 /-- the loop of `consume` -/
 def consumeEntries (inter : α) : List (CEntry α) → Except GErr (List (CEntry α))
